@@ -106,7 +106,7 @@ func runCheck(prop, tier string, seed int) (exit int) {
 	var cs []*FnContract
 	for _, fc := range w.contracts {
 		for _, p := range fc.Props {
-			if p == prop {
+			if p == prop && strings.Contains(fc.Key, os.Getenv("SNESVC_ONLY")) {
 				cs = append(cs, fc)
 			}
 		}
